@@ -400,13 +400,25 @@ pub fn c36_end_to_end() {
     let n_bytes = args.budget(150, 3000, 5);
     let mut flows_seen = 0;
 
+    // compile every flow first: the dylibs must be built against the same repository state as
+    // this test binary (see `repo_fingerprint`)
+    let fp = util::repo_fingerprint();
+    let mut cases = vec![];
     for name in ALL_CASES {
         if let Some(c) = &replay
             && c.get("flow").and_then(|f| f.as_str()) != Some(name)
         {
             continue;
         }
-        let case = build_case(name);
+        cases.push((name, build_case(name)));
+    }
+    if util::repo_fingerprint() != fp {
+        rep.require(false, "the repository under test changed while the simulator dylibs were being compiled; rerun");
+        rep.finish("aborted: repository changed during the build phase", false);
+        return;
+    }
+    for (name, case) in &cases {
+        let name = *name;
         flows_seen += 1;
         let (small, large) = inputs_for(name, thorough);
 
@@ -640,13 +652,23 @@ pub fn c37_end_to_end() {
     let mut flows_seen = 0;
     let mut table: BTreeMap<String, serde_json::Value> = BTreeMap::new();
 
+    let fp = util::repo_fingerprint();
+    let mut cases = vec![];
     for name in C37_CASES {
         if let Some(c) = &replay
             && c.get("flow").and_then(|f| f.as_str()) != Some(name)
         {
             continue;
         }
-        let case = build_case(name);
+        cases.push((name, build_case(name)));
+    }
+    if util::repo_fingerprint() != fp {
+        rep.require(false, "the repository under test changed while the simulator dylibs were being compiled; rerun");
+        rep.finish("aborted: repository changed during the build phase", false);
+        return;
+    }
+    for (name, case) in &cases {
+        let name = *name;
         flows_seen += 1;
         let (small, _) = inputs_for(name, thorough);
         for inp in &small {
